@@ -188,6 +188,13 @@ func (sb *sandbox) rebuild() {
 	put(sb.dir("out2/keep"), "decoy out2/keep\n", 0o644)
 	put(sb.dir("out-evil/keep"), "decoy out-evil/keep\n", 0o644)
 	put(sb.dir("out.bak/keep"), "decoy out.bak/keep\n", 0o644)
+	// symlink decoys outside every designated directory: dangling ones (a clean-up that walks too far
+	// removes them) and a live one
+	must(os.Symlink("nowhere", sb.dir("dangling")))
+	must(os.Symlink("nowhere", sb.dir("out2/dangling")))
+	must(os.Symlink("../nowhere", sb.dir("cwd/dangling")))
+	must(os.Symlink("nowhere", sb.dir("tmp/dangling")))
+	must(os.Symlink("file", sb.dir("cwd/live")))
 	must(os.Setenv("TMPDIR", sb.dir("tmp")))
 	must(os.Chdir(sb.dir("cwd")))
 	sb.base = snapshot(sb.R)
